@@ -1,6 +1,6 @@
 SPECIFICATION Spec
 CONSTANTS
-  SeqLen = 1
+  SeqLen = 2
   SeqLenSmall = 2
 INVARIANTS
   Emit
